@@ -1,16 +1,116 @@
+/* stubmod.c - stub iauthd module for C20 (module load / post-init / unload order).
+ *
+ * Compiled once (ctx.build.stubmod()) and COPIED to m1.so ... m6.so, so that every copy has
+ * its own inode, statics and dlopen handle.  The daemon under test is the real iauthd-c; the
+ * subject is src/module.c.  Nothing here judges anything: the stub only declares what its
+ * dependency file says and records that its entry points were called.
+ *
+ * Environment:
+ *   VERIF_MODDEPS  file with one line per module:  "<name>: <item> <item> ..."; the constructor
+ *                  of <name> walks its items in order:
+ *                      dep      module_depends("dep", NULL)
+ *                      ~dep     module_antidepends("dep", NULL)   (not part of C20's contract)
+ *                      !        module_is_backend()               (not part of C20's contract)
+ *   VERIF_MODLOG   event log, one ndjson line per event, each written with a single
+ *                  write(2) on an O_APPEND descriptor:
+ *                      {"e":"ctor-begin","m":"m1"}  {"e":"ctor-end","m":"m1"}
+ *                      {"e":"post-init","m":"m1"}   {"e":"dtor","m":"m1"}
+ *                      {"e":"running"}
+ *   VERIF_MODSTOP  if set: the first post-init of the process arms a zero-delay libevent timer.
+ *                  Its callback can only run inside main()'s event_base_dispatch(), i.e. after
+ *                  start-up has completed and the signal handlers are installed; it logs
+ *                  "running" and sends the daemon its own documented clean-stop signal
+ *                  (SIGHUP), so that a daemon without the iauth module (which would otherwise
+ *                  run forever) shuts down through the normal exit path and runs the
+ *                  destructors.
+ */
+#include <fcntl.h>
+#include <signal.h>
 #include <stdio.h>
 #include <stdlib.h>
 #include <string.h>
+#include <sys/time.h>
+#include <unistd.h>
+#include <event2/event.h>
+
 struct module;
 void module_depends(const char *name, ...);
+void module_antidepends(const char *name, ...);
+void module_is_backend(void);
 const char *module_get_name(const struct module *mod);
+extern struct event_base *ev_base;
+
 static char self_name[64];
-static void ev(const char *what, const char *n){ FILE *f=fopen(getenv("VERIF_MODLOG"),"a"); fprintf(f,"%s %s\n",what,n); fclose(f);} 
-__attribute__((visibility("default"))) void module_constructor(const char *name){
-  strncpy(self_name,name,63); ev("ctor-begin",name);
-  FILE *f=fopen(getenv("VERIF_MODDEPS"),"r"); char line[256];
-  while(f && fgets(line,sizeof line,f)){ char *c=strchr(line,':'); if(!c) continue; *c=0; if(strcmp(line,name)) continue;
-    char *sv; for(char *t=strtok_r(c+1," \n",&sv); t; t=strtok_r(NULL," \n",&sv)) module_depends(strdup(t), NULL); }
-  if(f) fclose(f); ev("ctor-end",name); }
-__attribute__((visibility("default"))) void module_post_init(struct module *self){ ev("post-init", module_get_name(self)); }
-__attribute__((visibility("default"))) void module_destructor(void){ ev("dtor", self_name); }
+
+static void ev(const char *what, const char *n)
+{
+    char buf[160];
+    const char *path = getenv("VERIF_MODLOG");
+    int fd, len;
+
+    if (!path)
+        return;
+    if (n)
+        len = snprintf(buf, sizeof buf, "{\"e\":\"%s\",\"m\":\"%s\"}\n", what, n);
+    else
+        len = snprintf(buf, sizeof buf, "{\"e\":\"%s\"}\n", what);
+    fd = open(path, O_WRONLY | O_APPEND | O_CREAT, 0644);
+    if (fd < 0)
+        return;
+    if (write(fd, buf, len) != len)
+        _exit(97);
+    close(fd);
+}
+
+static void running_cb(evutil_socket_t fd, short what, void *arg)
+{
+    (void)fd; (void)what; (void)arg;
+    ev("running", NULL);
+    kill(getpid(), SIGHUP);
+}
+
+__attribute__((visibility("default"))) void module_constructor(const char *name)
+{
+    FILE *f;
+    char line[512];
+
+    strncpy(self_name, name, sizeof(self_name) - 1);
+    ev("ctor-begin", name);
+    f = fopen(getenv("VERIF_MODDEPS") ? getenv("VERIF_MODDEPS") : "/nonexistent", "r");
+    while (f && fgets(line, sizeof line, f)) {
+        char *c = strchr(line, ':'), *sv, *t;
+        if (!c)
+            continue;
+        *c = 0;
+        if (strcmp(line, name))
+            continue;
+        /* constructors nest (module_depends loads the dependency): strtok_r, own buffer */
+        for (t = strtok_r(c + 1, " \n", &sv); t; t = strtok_r(NULL, " \n", &sv)) {
+            if (!strcmp(t, "!"))
+                module_is_backend();
+            else if (t[0] == '~')
+                module_antidepends(strdup(t + 1), NULL);   /* the loader keeps the pointer */
+            else
+                module_depends(strdup(t), NULL);
+        }
+        break;
+    }
+    if (f)
+        fclose(f);
+    ev("ctor-end", name);
+}
+
+__attribute__((visibility("default"))) void module_post_init(struct module *self)
+{
+    ev("post-init", module_get_name(self));
+    if (getenv("VERIF_MODSTOP") && !getenv("VERIF_MODSTOP_ARMED")) {
+        struct timeval tv = { 0, 0 };
+        setenv("VERIF_MODSTOP_ARMED", "1", 1);      /* process-wide: the copies share no statics */
+        event_base_once(ev_base, -1, EV_TIMEOUT, running_cb, NULL, &tv);
+    }
+}
+
+__attribute__((visibility("default"))) void module_destructor(void)
+{
+    ev("dtor", self_name);
+}
